@@ -7,9 +7,9 @@ wt="${1:?}"; crate="${2:?}"; t="${3:?}"; src="${4:?}"
 cd "$wt" || exit 2
 mkdir -p "$crate/tests" && cp "_out/demo/$t.rs" "$crate/tests/"
 echo "--- with change"; cargo test --offline -p "$crate" --test "$t" -- --test-threads 1 2>&1 | grep -E "^test result"
-git stash -q -- "$src"
+git diff -- "$src" > "_out/.confirm.diff"; git checkout -q -- "$src"   # (not git stash: the stash is shared by all worktrees)
 echo "--- without change"; cargo test --offline -p "$crate" --test "$t" -- --test-threads 1 2>&1 | grep -E "^test result"
-git stash pop -q
+git apply "_out/.confirm.diff"; rm -f "_out/.confirm.diff"
 rm -f "${wt:?}/${crate:?}/tests/${t:?}.rs"; rmdir "$crate/tests" 2>/dev/null
 echo "--- lib tests with change"; cargo test --offline -p "$crate" --lib 2>&1 | grep -E "^test result"
 git status --short | grep -v "^??"
